@@ -1,0 +1,85 @@
+//go:build verif
+
+package gohlslib
+
+import (
+	"context"
+)
+
+// VerifHook is called at instrumented points (verification builds only).
+// It must be set before any Muxer or Client is started.
+var VerifHook func(point string, key any, arg any)
+
+func verifPoint(point string, key any, arg any) {
+	if h := VerifHook; h != nil {
+		h(point, key, arg)
+	}
+}
+
+// VerifKey returns the value passed as key by the hooks of this muxer.
+func (m *Muxer) VerifKey() any {
+	return &m.mutex
+}
+
+// VerifMutexFree reports whether the muxer mutex can be acquired right now.
+func (m *Muxer) VerifMutexFree() bool {
+	if m.mutex.TryLock() {
+		m.mutex.Unlock() //nolint:staticcheck
+		return true
+	}
+	return false
+}
+
+// VerifPathCount returns the number of registered URL paths.
+func (m *Muxer) VerifPathCount() int {
+	m.server.mutex.RLock()
+	defer m.server.mutex.RUnlock()
+	return len(m.server.pathHandlers)
+}
+
+// VerifSegmentQueue exposes the client segment queue to the verification harness.
+type VerifSegmentQueue struct {
+	q clientSegmentQueue
+}
+
+// NewVerifSegmentQueue allocates a VerifSegmentQueue.
+func NewVerifSegmentQueue() *VerifSegmentQueue {
+	q := &VerifSegmentQueue{}
+	q.q.initialize()
+	return q
+}
+
+// Key returns the value passed as key by the hooks of this queue.
+func (q *VerifSegmentQueue) Key() any {
+	return &q.q
+}
+
+// Push pushes a payload (nil payload pushes the nil sentinel).
+func (q *VerifSegmentQueue) Push(payload []byte) {
+	if payload == nil {
+		q.q.push(nil)
+		return
+	}
+	q.q.push(&segmentData{payload: payload})
+}
+
+// Pull pulls a payload.
+func (q *VerifSegmentQueue) Pull(ctx context.Context) ([]byte, bool) {
+	seg, ok := q.q.pull(ctx)
+	if !ok || seg == nil {
+		return nil, ok
+	}
+	return seg.payload, true
+}
+
+// WaitUntilSizeIsBelow wraps waitUntilSizeIsBelow.
+func (q *VerifSegmentQueue) WaitUntilSizeIsBelow(ctx context.Context, n int) bool {
+	return q.q.waitUntilSizeIsBelow(ctx, n)
+}
+
+// Len returns the queue length.
+func (q *VerifSegmentQueue) Len() int {
+	q.q.mutex.Lock()
+	defer q.q.mutex.Unlock()
+	return len(q.q.queue)
+}
